@@ -140,8 +140,6 @@ package backendpb
 //@   ensures absent-means-off: x == nil ==> c != nil && !c.Enabled && len(c.IDs) == 0
 //@   ensures the-switch-from-its-own: x != nil ==> c != nil && c.Enabled == x.Enabled && len(c.IDs) <= len(x.Ids)
 //@   loop 1 invariant -1 <= #i && #i < len(x.Ids) && c != nil && fresh(c) && c.Enabled == x.Enabled && len(c.IDs) <= #i + 1 && (arr(c.IDs) == 0 || fresh(arr(c.IDs)))
-//@ func filter.NewID
-//@   modifies nothing
 
 //@ func rulesToInternal
 //@   modifies nothing
